@@ -301,6 +301,9 @@ impl<'a> Driver<'a> {
             self.do_op(op_json(t, "seek", p, k, 0, "U", 0, "U", 0));
             if heavy {
                 self.do_op(op_json(t, "get", p, k, 0, "U", 0, "U", 0));
+                let lo = self.rng.gen_range(0..self.nk);
+                let hi = self.rng.gen_range(0..3);
+                self.do_op(op_json(t, "reseek", p, k, 0, "U", lo, "U", hi));
             }
         }
         let nrange = if heavy { 6 } else { 2 };
@@ -418,8 +421,12 @@ impl<'a> Driver<'a> {
             self.do_op(op_json(t, "getkv", &p, k, 0, "U", 0, "U", 0));
         } else if r < 30 {
             self.do_op(op_json(t, "getb", &p, k, 0, "U", 0, "U", 0));
-        } else if r < 50 {
+        } else if r < 42 {
             self.do_op(op_json(t, "seek", &p, k, 0, "U", 0, "U", 0));
+        } else if r < 50 {
+            let lo = self.rng.gen_range(0..self.nk);
+            let hi = self.rng.gen_range(0..4);
+            self.do_op(op_json(t, "reseek", &p, k, 0, "U", lo, "U", hi));
         } else if r < 75 {
             let (lk, lo, hk, hi) = self.rand_bounds();
             let c = ["range", "range", "rangeb", "rangekv"][self.rng.gen_range(0..4)];
